@@ -210,7 +210,7 @@ func (w *c04World) exec(op C04Op) Res {
 		var p Parsed
 		switch op.How {
 		case 0:
-			p = guardParse(func() (*liquid.Template, liquid.SourceError) { return w.eng.ParseTemplate([]byte(src)) })
+			p = ParseBytes(w.eng, src)
 		case 1:
 			p = Parse(w.eng, src)
 		default:
